@@ -43,6 +43,7 @@ type callCtl struct {
 	done    chan struct{}
 	err     error
 	gated   bool
+	blocked bool // started, but neither reached the gate nor returned while another call was parked
 }
 
 var (
@@ -68,6 +69,7 @@ type c09env struct {
 	m      *Material
 	endo   *epb.VMLaunchEndorsement
 	eb     []byte
+	bad    []byte // the endorsement with a corrupted signature (serialized)
 	roots  func() *verify.Options
 	attOf  map[string]*spb.Attestation
 	alone  map[string]bool // accepted in isolation
@@ -105,6 +107,7 @@ func newC09env() (*c09env, error) {
 	badSig.Signature = append([]byte{}, badSig.Signature...)
 	badSig.Signature[10] ^= 0x40
 	bb, _ := proto.Marshal(badSig)
+	e.bad = bb
 	e.attSelf = map[string]*spb.Attestation{
 		"endorsed":   {Report: Report(good), CertificateChain: &spb.CertificateChain{VcekCert: m.Vcek.Raw, Extras: map[string][]byte{sevGUID: e.eb}}},
 		"unendorsed": {Report: Report(good), CertificateChain: &spb.CertificateChain{VcekCert: m.Vcek.Raw, Extras: map[string][]byte{sevGUID: bb}}},
@@ -195,16 +198,38 @@ func forced(calls []func() error, sched []seg) ([]bool, error) {
 				close(c.done)
 			}()
 			<-started
+			parked := false
+			for _, o := range ctls {
+				if o != nil && o != c {
+					select {
+					case <-o.done:
+					default:
+						parked = true
+					}
+				}
+			}
+			wait := 20 * time.Second
+			if parked {
+				wait = 300 * time.Millisecond
+			}
 			select {
 			case <-c.reached:
 			case <-c.done: // the call finished without passing a gate: segment B will be empty
-			case <-time.After(20 * time.Second):
-				return nil, fmt.Errorf("call %d neither reached the gate nor returned", s.P)
+			case <-time.After(wait):
+				if !parked {
+					return nil, fmt.Errorf("call %d neither reached the gate nor returned", s.P)
+				}
+				// the call waits for another call that is in flight: it cannot be placed by the schedule and
+				// runs on when the others are released; its result is judged like any other
+				c.blocked = true
 			}
 		case "B":
 			c := ctls[p]
 			if c == nil {
 				return nil, fmt.Errorf("schedule releases call %d before starting it", s.P)
+			}
+			if c.blocked {
+				continue // finishes when whatever it waits for has finished (collected below)
 			}
 			select {
 			case <-c.done:
@@ -215,6 +240,23 @@ func forced(calls []func() error, sched []seg) ([]bool, error) {
 				case <-time.After(20 * time.Second):
 					return nil, fmt.Errorf("call %d did not return after release", s.P)
 				}
+			}
+		}
+	}
+	for i, c := range ctls {
+		if c != nil && c.blocked {
+			// it may reach the gate now that the others are gone
+			select {
+			case <-c.reached:
+				close(c.release)
+			case <-c.done:
+			case <-time.After(20 * time.Second):
+				return nil, fmt.Errorf("call %d is still blocked after every other call returned", i+1)
+			}
+			select {
+			case <-c.done:
+			case <-time.After(20 * time.Second):
+				return nil, fmt.Errorf("call %d did not return", i+1)
 			}
 		}
 	}
@@ -268,9 +310,12 @@ func RunC09(run *vk.Run) {
 				run.Infra(err)
 				return
 			}
-			modes := []string{"one-validator", "validators-sharing-options", "SevValidate", "SevValidate-extracting", "SevValidate-base-policy"}
+			modes := []string{"one-validator", "validators-sharing-options", "SevValidate", "SevValidate-extracting", "SevValidate-base-policy",
+				// the caller gave the validator the endorsement (reports differ in their measurement); every
+				// report of one firmware comes with its own delivered endorsement, genuine or with a broken signature
+				"one-validator-given-endorsement", "one-validator-delivered-endorsements"}
 			if n == 4 {
-				modes = modes[:1+i%5]
+				modes = modes[:1+i%7]
 				modes = modes[len(modes)-1:]
 			}
 			for _, mode := range modes {
@@ -280,6 +325,9 @@ func RunC09(run *vk.Run) {
 				sevShared := env.sevOpt()
 				sevSharedNo := env.sevOptNo()
 				sevSharedBase := env.sevOptBase()
+				given := env.roots()
+				given.Endorsement = env.endo
+				oneGiven := verify.SNPValidateFunc(given)
 				for p := range c.Att {
 					abuild := env.attBuild[p%2][c.Att[p]]
 					a := env.attOf[c.Att[p]]
@@ -287,6 +335,14 @@ func RunC09(run *vk.Run) {
 					switch mode {
 					case "one-validator":
 						calls = append(calls, func() error { return one(a, env.eb) })
+					case "one-validator-given-endorsement":
+						calls = append(calls, func() error { return oneGiven(a, nil) })
+					case "one-validator-delivered-endorsements":
+						blob := env.eb
+						if c.Att[p] == "unendorsed" {
+							blob = env.bad
+						}
+						calls = append(calls, func() error { return one(env.attOf["endorsed"], blob) })
 					case "validators-sharing-options":
 						f := verify.SNPValidateFunc(shared)
 						calls = append(calls, func() error { return f(a, env.eb) })
@@ -312,7 +368,7 @@ func RunC09(run *vk.Run) {
 				// seen by every later call)
 				changed := ""
 				switch {
-				case mode == "one-validator" || mode == "validators-sharing-options":
+				case mode == "one-validator" || mode == "validators-sharing-options" || mode == "one-validator-delivered-endorsements":
 					if !shared.Now.Equal(sharedBefore.Now) || shared.Endorsement != sharedBefore.Endorsement || shared.Getter != sharedBefore.Getter || shared.RootsOfTrust != sharedBefore.RootsOfTrust || !bytes.Equal(shared.ExpectedUefiSha384, sharedBefore.ExpectedUefiSha384) {
 						changed = "verify.Options"
 					}
@@ -515,7 +571,7 @@ func RunC09(run *vk.Run) {
 		run.Extra["race_stress"] = "skipped (no -race binary)"
 	}
 	run.Exhaustive = true
-	run.Rule = "SnpValidatorProof.tla: TLAPS proof of C09_Isolated for the per-call design, for any number of calls and any families (inductive invariant: a captured measurement is the call's own); every interleaving of the two segments of N concurrent validator calls (N=2,3; thorough also 4) x every assignment of endorsed/unendorsed attestations emitted by TLC is forced on the real closure with the verifhook gate, in six sharing modes (validators of two firmware families built from one options value over the download path, one validator, validators from one Options value, SevValidate with a given endorsement, SevValidate extracting it, SevValidate with a shared base policy over two endorsed builds); each call's result is compared with its isolated result; plus a free-running 16-goroutine stress under the race detector"
+	run.Rule = "SnpValidatorProof.tla: TLAPS proof of C09_Isolated for the per-call design, for any number of calls and any families (inductive invariant: a captured measurement is the call's own); every interleaving of the two segments of N concurrent validator calls (N=2,3; thorough also 4) x every assignment of endorsed/unendorsed attestations emitted by TLC is forced on the real closure with the verifhook gate, in eight sharing modes (a validator given the endorsement by the caller, one validator whose reports of one firmware come with different delivered endorsements, validators of two firmware families built from one options value over the download path, one validator, validators from one Options value, SevValidate with a given endorsement, SevValidate extracting it, SevValidate with a shared base policy over two endorsed builds); each call's result is compared with its isolated result; plus a free-running 16-goroutine stress under the race detector"
 }
 
 func tailStr(s string, n int) string {
